@@ -5,10 +5,15 @@ import itertools
 from ufo import build, err_kind
 
 ID = "C03"
-THEOREM = "Ufo2ft.C03.C03_order / C03_cmap / C03_dup / C03_uvs"
+THEOREM = "Ufo2ft.C03.C03_order / C03_notdef_first / C03_empty_order / C03_cmap / C03_dup / C03_uvs"
 N = {"quick": 400, "thorough": 6000}
 RULE = ("function level: ALL name sets over {.notdef,a,b,c,B} x ALL glyphOrder lists of length<=3 (quick) / <=4 (thorough) "
-        "over those names+{zzz} against util.makeOfficialGlyphOrder (exhaustive small scope); end-to-end: random fonts "
+        "over those names+{zzz}, and ALL name sets over {.notdef,-,.alt,.n,.notdef.x,a} (names sorting before / right after the string "
+        "'.notdef') x ALL orders of length<=2 (the empty order included), against util.makeOfficialGlyphOrder (exhaustive small scope); "
+        "every 5th random case is a 'lowNames' font: 1-3 glyph names that compare lower than '.notdef' ('-', '+x', '$', '.alt', '.001', "
+        "'.case', '.n', '.notde', ...) and neighbours ('.notdef.alt', '.notdeg', '.null') among ordinary names, '.notdef' in the source or "
+        "synthesised, the effective order EMPTY in ~70% (no public.glyphOrder [ufoLib2] / an empty stored one / explicit glyphOrder=[] "
+        "with or without a non-empty stored order it overrides) and a short list otherwise, TTF and OTF, saved and reloaded; end-to-end: random fonts "
         "(glyph names, public.glyphOrder or glyphOrder= argument with duplicates/unknown names/.notdef anywhere, BMP and "
         "supplementary code points, several per glyph, duplicate code points, variation sequences) through compileTTF and "
         "compileOTF, saved and reloaded; histories: 3-4 fonts over one family's glyph names compiled one after another (compileTTF / compileOTF / alternating) or as the masters of one compileInterpolatableTTFs call with ONE shared explicit glyphOrder list object - each font's order must be the specified order for the ORIGINAL list. non-trivial = glyphOrder has a duplicate or unknown name or omits a glyph, or some "
@@ -16,6 +21,10 @@ RULE = ("function level: ALL name sets over {.notdef,a,b,c,B} x ALL glyphOrder l
 EXHAUSTIVE = False
 ASSUMED = ["cmap subtable binary encoding/decoding (fontTools) is an identity on the mapping"]
 
+# names that compare LOWER than the string ".notdef" (first char < '.', or '.' + something < "notdef") and two that share its
+# prefix: legal UFO glyph names for which "'.notdef' first" and "plain sorted()" differ
+LOW = ["-", "+x", "$", ".alt", ".001", ".case", ".n", ".notde", "-.notdef", "(c)"]
+NEAR = [".notdef.alt", ".notdeg", ".null", ".o"]
 POOL = [".notdef", "a", "b", "c", "B", "space", "a.alt", "f_i", "uni0041", "Zed", "z", "_x", "A", "ab", "b.sc", "zero", "one"]
 
 
@@ -34,8 +43,22 @@ def gen(rng, n, mode):
             if len(chunk) == 500:
                 yield {"kind": "official", "items": chunk}; chunk = []
     if chunk:
+        yield {"kind": "official", "items": chunk}; chunk = []
+    # second small scope: name sets whose members sort BEFORE / right after ".notdef", with no / short orders
+    low5 = [".notdef", "-", ".alt", ".n", ".notdef.x", "a"]
+    subsets = [[x for i, x in enumerate(low5) if m >> i & 1] for m in range(64)]
+    orders = [list(t) for k in range(3) for t in itertools.product(low5[:5] + ["zzz"], repeat=k)]
+    for s in subsets:
+        for o in orders:
+            chunk.append([s, o])
+            if len(chunk) == 500:
+                yield {"kind": "official", "items": chunk}; chunk = []
+    if chunk:
         yield {"kind": "official", "items": chunk}
     for i in range(n):
+        if i % 5 == 2:
+            yield _gen_low(rng, mode)
+            continue
         k = rng.choice([1, 2, 3, 5, 8, 12])
         names = rng.sample(POOL, min(k, len(POOL)))
         if rng.random() < 0.3 and ".notdef" not in names:
@@ -92,6 +115,45 @@ def gen(rng, n, mode):
                "arg": rng.random() < 0.4, "lib": rng.choice(["ufoLib2", "defcon"]), "fmt": rng.choice(["ttf", "otf"])}
 
 
+def _gen_low(rng, mode):
+    """end-to-end font whose glyph names include some that sort before / next to '.notdef'; the effective glyph order is
+    EMPTY in most cases (no public.glyphOrder / an empty stored one / an explicit glyphOrder=[] overriding a stored order),
+    otherwise a short list.  '.notdef' in the source or synthesised."""
+    k = rng.choice([1, 2, 3, 5, 8])
+    names = rng.sample(LOW, rng.randrange(1, 4)) + rng.sample(NEAR, rng.randrange(0, 2)) + rng.sample(POOL[1:], k)
+    if rng.random() < 0.5:
+        names.append(".notdef")
+    rng.shuffle(names)
+    r = rng.random()
+    stored = None
+    if r < 0.25:
+        go, arg = None, False                      # nothing stored, nothing passed
+    elif r < 0.45:
+        go, arg = [], False                        # empty public.glyphOrder
+    elif r < 0.70:
+        go, arg = [], True                         # explicit empty order ...
+        if rng.random() < 0.6:                     # ... overriding a non-empty stored one
+            stored = rng.sample(names, rng.randrange(1, len(names) + 1))
+    else:
+        go = [rng.choice(names + ["zzz", ".notdef"]) for _ in range(rng.randrange(1, 4))]
+        arg = rng.random() < 0.5
+    cps, used = {}, []
+    for nm in names:
+        us = []
+        if nm != ".notdef" and rng.random() < 0.5:
+            u = rng.choice([0x2D, 0x2B, 0x24, 0x41, 0x61, 0x1F600, 0xE000, 0x30])
+            if u not in used:
+                us.append(u); used.append(u)
+        cps[nm] = us
+    # defcon keeps an implicit glyph order as glyphs are added, so "nothing stored" is only reachable with ufoLib2
+    lib = "ufoLib2" if (go is None or (mode == "search" and not arg)) else rng.choice(["ufoLib2", "ufoLib2", "defcon"])
+    c = {"kind": "font", "names": names, "glyphOrder": go, "cps": cps, "uvs": [], "arg": arg, "lib": lib,
+         "fmt": rng.choice(["ttf", "otf"]), "low": True}
+    if stored is not None:
+        c["stored"] = stored
+    return c
+
+
 class _FakeFont(dict):
     pass
 
@@ -113,7 +175,7 @@ def run(case):
         return _run_history(case)
     names, go = case["names"], case["glyphOrder"]
     fd = {"glyphs": [{"name": n, "width": 500, "unicodes": case["cps"][n]} for n in names],
-          "glyphOrder": None if case["arg"] else go, "lib": {}}
+          "glyphOrder": case.get("stored") if case["arg"] else go, "lib": {}}
     if case["uvs"]:
         fd["lib"]["public.unicodeVariationSequences"] = {
             "%04X" % vs: {"%04X" % u: g for u, g in recs} for vs, recs in case["uvs"]}
@@ -135,6 +197,12 @@ def run(case):
         err = err_kind(e)
     reqs = []
     tags = [case["fmt"], case["lib"], "arg" if case["arg"] else "libOrder"]
+    if case.get("low"):
+        tags.append("lowNames")
+    if not eff_go:
+        tags.append("emptyOrder")
+    if any(n < ".notdef" for n in names):
+        tags.append("name<.notdef")
     if err is None:
         order = tt.getGlyphOrder()
         assert tt["maxp"].numGlyphs == len(order)
@@ -232,8 +300,13 @@ def shrink(case):
             c = dict(case); c["glyphOrder"] = case["glyphOrder"][:i] + case["glyphOrder"][i + 1:]; yield c
         return
     if case["kind"] != "font":
-        for i in range(len(case["items"])):
-            yield {"kind": "official", "items": [case["items"][i]]}
+        it = case["items"]                      # bisect (the core allows 60 candidates): halves, then single items
+        if len(it) > 8:
+            yield {"kind": "official", "items": it[:len(it) // 2]}
+            yield {"kind": "official", "items": it[len(it) // 2:]}
+        elif len(it) > 1:
+            for i in range(len(it)):
+                yield {"kind": "official", "items": [it[i]]}
         return
     for i in range(len(case["names"])):
         nm = case["names"][i]
@@ -249,10 +322,14 @@ def shrink(case):
             c = dict(case); c["glyphOrder"] = case["glyphOrder"][:i] + case["glyphOrder"][i + 1:]; yield c
 
 LEVEL_TEXT = ("Proved for all inputs (Lean): the modelled glyph-order algorithm equals the declarative order ('.notdef' first, listed "
-              "glyphs in first-occurrence order, rest sorted), is duplicate-free and a permutation of the glyph set; the modelled "
+              "glyphs in first-occurrence order, rest sorted), is duplicate-free and a permutation of the glyph set; '.notdef' is glyph 0 "
+              "for every name set and order (also when names compare lower than '.notdef'), and with an empty order the result is "
+              "'.notdef' + all other names sorted (with a proved witness that this differs from plain sorted()); the modelled "
               "code-point mapping equals the source declarations exactly when no code point is declared twice and is an "
               "InvalidFontData error otherwise; BMP/supplementary subtable split; default/non-default UVS rule. The model is tied "
               "to the code by exhaustive small-scope + random differential runs through compileTTF/compileOTF.")
 LEVEL_NOTE = ("Trusted: Lean kernel + propext/Classical.choice/Quot.sound; the hand-written model's correspondence to util.py / "
-              "outlineCompiler.py is differential (generators bound it); fontTools' cmap codec is assumed identity; a '.notdef' "
+              "outlineCompiler.py is differential (generators bound it; string comparison is by code point in both Lean and Python, "
+              "the generated names are ASCII); the empty-effective-order x low-sorting-name scenarios are generated, not enumerated "
+              "beyond the 6-name scope; fontTools' cmap codec is assumed identity; a '.notdef' "
               "glyph carrying code points is excluded (glyph index 0 cannot be a cmap target in the binary format).")
